@@ -163,6 +163,11 @@ def b_load(case, ctx):
             sigp + f"|descriptor_left_open|outcome={res['status']}|via_path={case['via_path']}|gc_closes={not res.get('fd_leak_after_gc')}",
             ent + f"after the load returned ({res['status']} {res.get('exc', '')}) these descriptors were still open: {res['fd_leak']}",
         )
+    if res.get("resource_warnings"):
+        raise Violation(
+            sigp + f"|file_closed_only_by_gc|outcome={res['status']}|via_path={case['via_path']}",
+            ent + f"the loader left a file object to the garbage collector ({res['status']} {res.get('exc', '')}): {res['resource_warnings'][0]}",
+        )
     if res.get("cpu_s", 0) > cpu:
         raise Violation(sigp + f"|slow|fault={fk}", ent + f"{res['cpu_s']} s CPU for a {n} byte input (budget {cpu:.2f})")
 
